@@ -119,7 +119,7 @@ func runC13(c string) string {
 				// Run returns at the first fatal task error while other tasks of the invocation may still be
 				// running: let them finish, so that the files listed below are what the failed run leaves behind
 				last, stable := listCacheFiles(dir), 0
-				for i := 0; i < 40 && stable < 4; i++ {
+				for i := 0; i < 60 && stable < 6; i++ {
 					time.Sleep(100 * time.Millisecond)
 					if cur := listCacheFiles(dir); cur == last {
 						stable++
